@@ -109,6 +109,13 @@ def run(ctx):
     ok = T.strip_raise(ret) == ("f", "method:_log_likelihood", (SELF, s), ())
     ctx.decide(ok, "C17.cnt", wrapper.ident, loc_of(wrapper), "wrapper calls the user likelihood once with the same sample set",
                f"wrapper returns {T.show(ret)[:160]}", disc="call")
+    # the points are counted before the user's likelihood is entered: "asked to evaluate" includes a call that raises
+    call_ev = [e for e in ev.events if e.func is wrapper and e.callee == "method:_log_likelihood"]
+    inc = [st_ for st_ in ev.stores if st_[0] == SELF and st_[1] == "n_likelihood_evaluations" and st_[4] is wrapper]
+    okb = len(call_ev) == 1 and len(inc) == 1 and inc[0][5] < call_ev[0].seq
+    ctx.decide(okb, "C17.cnt", wrapper.ident, loc_of(wrapper, call_ev[0].node if call_ev else None), "the counter is increased before the user's likelihood is called",
+               "the counter is increased only after the user's likelihood returned: a call that raises (an interrupted or failing evaluation, "
+               "after which the run is resumed) asked the likelihood for len(samples) points that are never counted", disc="before")
     over = [c.ident for c in repo.subclasses(base, strict=True) if "log_likelihood" in c.methods]
     ctx.decide(not over, "C17.cnt", base.ident, loc_of(wrapper), "no sampler class overrides the counting wrapper",
                f"counting wrapper overridden in {over}", disc="override")
@@ -170,6 +177,7 @@ MUTANTS = [
       "if beta < 1.0:\n            samples.log_prior = samples.array_to_namespace(self.log_prior(samples))\n        samples.log_likelihood = samples.array_to_namespace(\n            self.log_likelihood(samples)\n        )\n\n        # Compute target", "C17.ord"),
     M("convert_to_samples: likelihood first", _A, "if log_prior is None:\n                logger.info(\"Evaluating log prior\")\n                samples.log_prior = samples.xp.to_device(\n                    self.log_prior(samples), samples.device\n                )\n            if log_likelihood is None:\n                logger.info(\"Evaluating log likelihood\")\n                samples.log_likelihood = samples.xp.to_device(\n                    self.log_likelihood(samples), samples.device\n                )",
       "if log_likelihood is None:\n                logger.info(\"Evaluating log likelihood\")\n                samples.log_likelihood = samples.xp.to_device(\n                    self.log_likelihood(samples), samples.device\n                )\n            if log_prior is None:\n                logger.info(\"Evaluating log prior\")\n                samples.log_prior = samples.xp.to_device(\n                    self.log_prior(samples), samples.device\n                )", "C17.ord"),
+    M("counter increased after the user call", _SB, "self.n_likelihood_evaluations += len(samples)\n        return self._log_likelihood(samples)", "out = self._log_likelihood(samples)\n        self.n_likelihood_evaluations += len(samples)\n        return out", "C17.cnt"),
     M("counter counts calls not points", _SB, "self.n_likelihood_evaluations += len(samples)", "self.n_likelihood_evaluations += 1", "C17.cnt"),
     M("uncounted direct call", _B, "samples.log_likelihood = self.log_likelihood(samples)", "samples.log_likelihood = self._log_likelihood(samples)", "C17.cnt", within="SMCSampler.log_prob"),
     M("counter reset during sampling", _B, "self.target_efficiency = target_efficiency\n", "self.target_efficiency = target_efficiency\n        self.n_likelihood_evaluations = 0\n", "C17.cnt"),
